@@ -179,8 +179,13 @@ def core_lattice(rng, tier):
     U6 = fitted_type(2, OF, use_low_fidelity_model=True,
                      low_fidelity_model='6node')
 
+    # flows differ from position to position (what holds per assembly must
+    # not be computed per type)
+    FF = (1.0, 0.9, 1.15, 0.8, 1.05, 0.7, 1.2, 0.95, 0.85)
+
     def core(label, types, lay, **kw):
-        flows = [flow_for(types[n], 0.12) for (_, _, n) in lay]
+        flows = [flow_for(types[n], 0.12) * FF[i % len(FF)]
+                 for i, (_, _, n) in enumerate(lay)]
         out.append((label, make_core(rng, types, lay, flows, **kw)))
 
     p7 = layout_positions(7)
